@@ -68,7 +68,10 @@ func (m *objectMap) flush(db *DB) (err error) {
 
 	for _, o := range m.m {
 		if e := db.writeObject(o); e != nil {
+			// the object stays in the list of objects to save,
+			// it has not been written and a later flush can retry
 			err = e
+			continue
 		}
 		// we delete object from the list of objects to save
 		m.delete(o.UUID())
@@ -524,8 +527,9 @@ func (db *DB) search(o Object, field, operator string, value interface{}, constr
 
 func (db *DB) flush(o Object) (err error) {
 
-	if e := db.writeObject(o); e != nil {
-		err = e
+	if err = db.writeObject(o); err != nil {
+		// the object stays in the list of objects to save
+		return
 	}
 
 	// we delete object from the list of objects to save
